@@ -121,7 +121,7 @@ Fixpoint dec_val (fuel : nat) (l : list N) : option (pyval * list N) :=
 Fixpoint limbs_of (fuel : nat) (n : N) : list N :=
   match fuel with
   | O => []
-  | S f => if n =? 0 then [] else (n mod LIMB) :: limbs_of f (n / LIMB)
+  | S f => if n =? 0 then [] else let (q, r) := N.div_eucl n LIMB in r :: limbs_of f q
   end.
 
 Definition enc_big (n : N) : list N :=
